@@ -1,11 +1,14 @@
 package s0168
 
+type G2 struct {
+	F1x0x0 int64
+}
+
 type G1 struct {
-	F2x0 uint32
+	F1x0 G2
 }
 
 type T struct {
 	F0 int32
-	F1 int64
-	F2 *G1
+	F1 *G1
 }
